@@ -216,6 +216,10 @@ func c10custom(rep *vh.Report, seed uint64, idx int) {
 			totalValid += len(uids)
 		}
 		links[i] = l
+		if r.Chance(1, 4) {
+			// the transport refuses some writes (once or from then on) while frames keep arriving
+			l.tr.FailWriteAt(1+r.Intn(20), errors.New("write refused"), r.Chance(1, 2))
+		}
 		eps = append(eps, gomavlib.EndpointCustom{ReadWriteCloser: l.tr})
 	}
 	node := &gomavlib.Node{Endpoints: eps, Dialect: testDialect, OutVersion: gomavlib.V2, OutSystemID: 77, InKey: inKey,
@@ -607,7 +611,7 @@ func TestC10(t *testing.T) {
 		if i%5 == 4 {
 			c10net(rep, seed, i)
 		}
-		if rep.NViolations() > 20 {
+		if rep.NViolations() > 4 {
 			break
 		}
 	}
